@@ -8,6 +8,7 @@ from . import r_macros as M
 from . import r_tmpl as T
 from . import r_misc as X
 from . import r_witness as W
+from . import r_corpus as CP
 
 COMMON_ASSUMPTIONS = [
     "rustc nightly front end, MIR construction and trait resolution are correct; the mirfacts extractor serialises MIR faithfully",
@@ -164,9 +165,9 @@ prop(
 
 prop(
     "C05",
-    rules=["C05-R1", "C05-R2", "C05-R3", "C05-R4", "C05-R5", "C05-R7", "C05-R6"],
-    static_rules=[T.rule_sibling_helpers],
-    static_floors={'C05-R6': 1},
+    rules=["C05-R1", "C05-R2", "C05-R3", "C05-R4", "C05-R5", "C05-R7", "C05-R6", "C05-R8"],
+    static_rules=[T.rule_sibling_helpers, CP.rule_query_corpus],
+    static_floors={'C05-R6': 1, 'C05-R8': 150},
     mir_rules=[M.rule_bind_query_params, M.rule_contains_component, M.rule_bind_one_of, M.rule_generators, SP.rule_find_dispatch, SP.rule_iter_loops],
     floors={"C05-R1": 40, "C05-R2": 9, "C05-R3": 7, "C05-R4": 9, "C05-R5": 60, "C05-R7": 30},
     explanation="Static analysis, universal part on the macro crate's own MIR: C05-R1 in bind_query_params a parameter binds to an archetype iff (Component) !cfg_enabled or contains_component(archetype, name), (Entity/EntityDirect<A>) !cfg_enabled or archetype.name == A, "
@@ -174,7 +175,10 @@ prop(
     "C05-R3 bind_one_of loops all members, second hit is an error, returns the unique hit; C05-R4 each generator emits per archetype iff bound_params.get(&name) is Some and errors when nothing matched. "
     "Sampled part: static analysis of the specimen expansions against an independent matcher (hand-written from the specimen declaration). Decides: C05-R7 for each of 26 query sites over 5 macros, the set of world fields walked / match arms present "
     "equals the set of archetypes the matcher computes (components, OneOf with exactly one hit, typed entity parameters, cfg-disabled parameters); C05-R5 each find arm fetches from the archetype of its own variant, "
-    "the closure only runs inside .map of that fetch, and the fall-through arm returns None without running a closure.",
+    "the closure only runs inside .map of that fetch, and the fall-through arm returns None without running a closure. "
+    "Compile-time witnesses (E4, generated): C05-R8 a seeded corpus of generated (world, query) programs over five worlds with overlapping, prefix-named component sets and all five query macros (quick 600, thorough 6000 queries): rustc's type checker decides that the closure body "
+    "is instantiated for exactly the oracle's archetypes (an `impl Seen<MatchedArchetype>` per copy of the body against a `Seen<A0>+Seen<A1>..` bound for the iter family; an `Allowed` marker bound for over-matching in all five), that each parameter has its own column's type "
+    "(OneOf through an associated type chosen by the oracle), and that empty match sets and ambiguous OneOf are rejected with the generator's message. The oracle is written from the property text.",
     not_decided="nothing about run-time entity sets; these rules sample query programs -- the universal rules on the binder functions of the macro crate are listed separately",
 )
 
@@ -203,28 +207,33 @@ prop(
 
 prop(
     "C15",
-    rules=["C15-R1", "C15-R2", "C15-R3", "C15-R4", "C15-R7", "C16-R4", "C15-R6"],
-    static_rules=[T.rule_template_shapes],
-    static_floors={'C15-R6': 1},
+    rules=["C15-R1", "C15-R2", "C15-R3", "C15-R4", "C15-R7", "C16-R4", "C15-R6", "C15-R8"],
+    static_rules=[T.rule_template_shapes, CP.rule_id_corpus],
+    static_floors={'C15-R6': 1, 'C15-R8': 400},
     mir_rules=[M.rule_advance_id, M.rule_dataworld, SP.rule_tables],
     floors={"C15-R1": 5, "C15-R2": 5, "C15-R3": 20, "C15-R4": 2, "C15-R7": 10},
     explanation="Static analysis, universal over declarations (on the generator's own MIR): C15-R1 advance_attribute_id returns Ok(Some(next)) with exactly three origins under exactly these guards: explicit id iff present, else checked_add(previous, 1) iff a previous id exists, else 0; "
     "overflow of checked_add is an error; C15-R2 every Ok is on the None edge of ids.insert(next, _), the Some edge is an error; C15-R3 in DataWorld::new archetypes are visited front to back with one shared id map and a loop-carried previous id, "
     "components get a fresh map and previous=None inside each archetype iteration, cfg-disabled items are skipped before id assignment; C15-R4 DataArchetype.id/DataComponent.id are the ids just assigned. "
-    "Sampled: C15-R7 the evaluated ARCHETYPE_ID/COMPONENT_ID/NUM_ARCHETYPES constants of the specimen equal an independent oracle.",
+    "Sampled: C15-R7 the evaluated ARCHETYPE_ID/COMPONENT_ID/NUM_ARCHETYPES constants of the specimen equal an independent oracle. "
+    "Compile-time witnesses (E4, generated): C15-R8 every assignment of {implicit, 0, 1, 5, 254, 255} to 3 (thorough: also 4) archetypes and to 3 (4) components is compiled with `const _: () = assert!(..)` on ARCHETYPE_ID, ArchetypeHas::COMPONENT_ID, ecs_component_id! and NUM_ARCHETYPES "
+    "against an independent re-statement of the discriminant rule; declarations with a duplicate id or counting past 255 must be rejected with the generator's message (quick 432, thorough 3024 declarations).",
     not_decided="token emission of the ids (quote! interpolation) is witnessed on the specimen constants, not proved for all declarations",
 )
 
 prop(
     "C16",
-    rules=["C16-R1", "C16-R3", "C16-R4", "C16-R5", "C16-R2"],
-    static_rules=[T.rule_template_shapes],
-    static_floors={'C16-R2': 10, 'C16-R4': 9},
+    rules=["C16-R1", "C16-R3", "C16-R4", "C16-R5", "C16-R2", "C16-R6", "C16-R7"],
+    static_rules=[T.rule_template_shapes, CP.rule_id_corpus, CP.rule_query_corpus],
+    static_floors={'C16-R2': 10, 'C16-R4': 9, 'C16-R6': 600, 'C16-R7': 350},
     mir_rules=[M.rule_collectors, M.rule_cfg_lookup, M.rule_dataworld, M.rule_bind_query_params],
     floors={"C16-R1": 15, "C16-R3": 12, "C16-R4": 6, "C16-R5": 1},
     explanation="Static analysis on the macro crate's MIR: C16-R1 the expand side and the impl side of each of the six entry kinds use the same HasCfgPredicates impl (same T), the query impls delegate to one get_cfg_predicates, both collectors push a predicate iff "
     "HashSet::insert(to_string(predicate)) reports it new (first-appearance order); C16-R3 ParseCfgDecorated::parse inserts (to_string(predicate_i), state_i) over zip(predicates, states) after asserting equal lengths, evaluate_cfgs/is_cfg_enabled look up "
-    "to_string(cfg.predicate) and form the conjunction; C16-R4 disabled archetypes/components are skipped before ids, structs and matching see them, disabled query parameters bind to every archetype (C05-R1 !enabled disjunct); C16-R5 cfg on OneOf is rejected.",
+    "to_string(cfg.predicate) and form the conjunction; C16-R4 disabled archetypes/components are skipped before ids, structs and matching see them, disabled query parameters bind to every archetype (C05-R1 !enabled disjunct); C16-R5 cfg on OneOf is rejected. "
+    "Compile-time witnesses (E4, generated): C16-R6 declarations decorated with every ordered triple of six distinct always-true/always-false predicates on archetypes and components at once, pairs/triples of #[cfg] on one item (conjunction), and cfg states x ids at the 255 boundary: "
+    "const assertions on ids/NUM_ARCHETYPES and trait presence equal the oracle applied to the declaration with disabled items deleted; C16-R7 generated queries with cfg-decorated parameters and worlds with disabled archetypes/components are expanded for exactly the archetypes "
+    "of the same query with disabled parameters deleted (type-checker witnesses as C05-R8).",
     not_decided="that rustc evaluates cfg (trusted); the literal shape of the generated probe chain and the #attrs emission are judged by the template rules",
 )
 
